@@ -159,11 +159,7 @@ def r2_print_parse(ctx):
              '' if not nest else nest[0])
     yield Ob('path:X12Path.format_refdes print/parse agreement over the part domain', not bad, ctx.floc(fn),
              '' if not bad else bad[0], detail={'evaluated': n, 'counterexamples': bad[:5]})
-    # __repr__ / __init__ slash agreement
-    init = ctx.func('path', 'X12Path.__init__')
-    splits = [c for c in A.calls_in(init) if A.call_target(c)[1] == 'split' and c.args and A.const(c.args[0]) == '/']
-    ok = len(splits) == 2
-    yield Ob('path:X12Path.__init__ splits on "/"', ok, ctx.floc(init), '' if ok else '%d split calls' % len(splits))
+    # __repr__ against the way __init__ reads a path (what __init__ makes of every text is decided in R3)
     rp = ctx.func('path', 'X12Path.__repr__')
     # the text printed for (absolute?, loops, designator) - by constant propagation - is split again the way
     # __init__ reads a path: leading "/" = absolute, items separated by "/", a trailing designator item
@@ -187,7 +183,7 @@ def r2_print_parse(ctx):
             raise AnalysisError('X12Path.__repr__: %d results for one path' % len(set(outs)))
         return outs[0]
     bad_abs, bad_loops = [], []
-    for rel, loops, (seg, rd) in itertools.product((True, False), ((), ('2000A',), ('2000A', '2300')), ((None, ''), ('NM1', 'NM1'), ('NM1', 'NM1[85]02'), (None, '02'))):
+    for rel, loops, (seg, rd) in itertools.product((True, False), ((), ('2000A',), ('2000A', '2300'), ('B',), ('2',), ('B', '2')), ((None, ''), ('NM1', 'NM1'), ('NM1', 'NM1[85]02'), (None, '02'))):
         if seg is None and rd and loops:
             continue      # refused by __init__
         text = shown(rel, loops, seg, rd)
@@ -206,9 +202,35 @@ def r2_print_parse(ctx):
     yield Ob('path:X12Path.__repr__ leading "/" iff absolute', not bad_abs, ctx.floc(rp), '' if not bad_abs else bad_abs[0])
     ok = any(c for c in A.calls_in(rp) if A.call_target(c) == ('self', 'format_refdes'))
     yield Ob('path:X12Path.__repr__ appends the designator', ok, ctx.floc(rp), '' if ok else 'format_refdes not used')
-    ini_abs = [n for n in ast.walk(init) if isinstance(n, ast.If) and norm(n.test) == "path_str[0] == '/'"]
-    ok = len(ini_abs) == 1
-    yield Ob('path:X12Path.__init__ absolute iff the text starts with "/"', ok, ctx.floc(init), '' if ok else 'absolute test changed')
+
+
+
+def parse_path_fields(ctx, text):
+    """the fields X12Path.__init__ leaves on the object for the path `text`, by constant propagation through the
+    constructor (None when it refuses the path)"""
+    from ..absint import explore
+    init = ctx.func('path', 'X12Path.__init__')
+    pat, flags, _node = _rec_path(ctx)
+    rx = re.compile(pat, flags)
+    funcs = {'X12Path.rec_path.search': lambda t: rx.search(t), 'self.rec_path.search': lambda t: rx.search(t), 'rec_path.search': lambda t: rx.search(t),
+             'X12Path.rec_path.match': lambda t: rx.match(t), 'self.rec_path.match': lambda t: rx.match(t)}
+    g = ctx.cfg(init)
+    finals, hit = [], []
+
+    def on_node(nd, env):
+        if nd.kind == 'raise':
+            hit.append(nd)
+        if nd is g.exit:
+            finals.append({k: v for k, v in env.items() if k.startswith('self.')})
+
+    def unk(nd, env):
+        raise AnalysisError('X12Path.__init__: a test cannot be decided for the path %r: %s' % (text, norm(nd.ast)))
+    explore(g, {'path_str': text}, funcs=funcs, on_node=on_node, on_unknown=unk)
+    if hit:
+        return None
+    if len(finals) != 1:
+        raise AnalysisError('X12Path.__init__: %d outcomes for the path %r' % (len(finals), text))
+    return finals[0]
 
 
 def r3_refusals(ctx):
@@ -538,7 +560,7 @@ def r5_map_paths(ctx):
 
 RULES = [
     Rule('C17.R1', 'rec_path / rec_seg_id equal the documented grammars (DFA equivalence)', r1_languages, floor=3),
-    Rule('C17.R2', 'printer/parser agreement of format_refdes and __repr__ vs __init__', r2_print_parse, floor=6),
+    Rule('C17.R2', 'printer/parser agreement of format_refdes and __repr__ vs __init__', r2_print_parse, floor=5),
     Rule('C17.R3', 'refusal conditions over all part combinations; foreign segment id refused before index use', r3_refusals, floor=3),
     Rule('C17.R4', 'Segment.set pads before it stores; Segment.get tests each index', r4_pad_before_store, floor=6),
     Rule('C17.R7', 'shared with C01.R8: format prints every position up to the last non-empty one', r7_shared_format, floor=2),
